@@ -56,9 +56,29 @@ func one(e *Emitter, from, to uint64, s *vkit.Stats, count bool) (err error) {
 		}
 	}()
 	code := e.Emit(from, to)
+	if count {
+		if err := e.Judge(append([]byte(nil), code...), from, to); err != nil {
+			return fmt.Errorf("emitter %s from=%#x to=%#x emitted % x: %v", e.Name, from, to, code, err)
+		}
+		// a second sequence is emitted before the first is judged: a sequence handed out stays what it was
+		from2, to2 := to^0x5a5a5a5a5a5a, from+0x1234567
+		code2 := e.Emit(from2, to2)
+		if err := e.Judge(code2, from2, to2); err != nil {
+			return fmt.Errorf("emitter %s from=%#x to=%#x emitted % x: %v", e.Name, from2, to2, code2, err)
+		}
+		if err := e.Judge(code, from, to); err != nil {
+			return fmt.Errorf("emitter %s from=%#x to=%#x: after another sequence (to=%#x) was emitted the first reads % x: %v", e.Name, from, to, to2, code, err)
+		}
+		return nonTrivial(e, from, to, s)
+	}
 	if err := e.Judge(code, from, to); err != nil {
 		return fmt.Errorf("emitter %s from=%#x to=%#x emitted % x: %v", e.Name, from, to, code, err)
 	}
+	return nil
+}
+
+func nonTrivial(e *Emitter, from, to uint64, s *vkit.Stats) error {
+	count := true
 	if count && (lanesNonZero(to) >= 2 || nearBoundary(from, to)) {
 		s.NonTrivialU(from*0x9e3779b97f4a7c15 ^ to ^ vkitHash(e.Name))
 	}
